@@ -1130,7 +1130,9 @@ func (r *Runner) resolveLiteralExpression(ctx context.Context, expr *LiteralExpr
 	case SK_ThisKeyword:
 		return r.this, nil
 	case SK_CtxKeyword:
-		return ctx, nil
+		// (a context that is a typed nil pointer is null like every other typed nil pointer:
+		// '!ctx' was "not support type" while '!!ctx' was false and 'ctx ?? 1' was 1)
+		return formatNilValue(ctx), nil
 	case SK_NumberLiteral:
 		r, ok := parseNumber(expr.Value)
 		if !ok {
